@@ -49,7 +49,7 @@ func init() {
 			}
 			return strings.Join(ops, "; ")
 		},
-		Rule: "operation histories of length<=16 on 4 variant handles and 2 caller-owned lists (slices with spare capacity, also reused after truncation to length 0): construction from host values of every supported Go kind (int, int32, uint, uint32, int64, float32, float64, bool, string, time.Time, time.Duration, nil, other) through NewVariant / VariantFromX / SetAsX, from lists through VariantFromArray / SetAsArray / NewVariant, copies through Clone / SetAsObject / NewVariant / Assign, indexed writes within and past the end, SetLength, caller-side writes, appends and truncations; every history is run by the model on the HEAP machine (objects, slices, backing arrays; the spare capacity append leaves is measured from the Go runtime and passed with the history); in the disciplined families handles that share a list through Assign are not mutated in place (DESIGN.md 4.3) and the direct value oracle applies, in the shared-write family they are (indexed writes and SetLength on either handle, inside the shared part, at its end and past it, clones and further Assigns in between) and the heap machine alone says what every handle must then hold; after every operation all values and the full Equals matrix are observed; non-trivial = a copy or list construction followed by a mutation of either side; distinct by input hash"})
+		Rule: "operation histories of length<=16 on 4 variant handles and 2 caller-owned lists (one with spare capacity, one starting as the nil slice; both reused after truncation to length 0): construction from host values of every supported Go kind (int, int32, uint, uint32, int64, float32, float64, bool, string, time.Time, time.Duration, nil, other) through NewVariant / VariantFromX / SetAsX, from lists through VariantFromArray / SetAsArray / NewVariant, copies through Clone / SetAsObject / NewVariant / Assign, indexed writes within and past the end, SetLength, caller-side writes, appends and truncations; every history is run by the model on the HEAP machine (objects, slices, backing arrays; the spare capacity append leaves is measured from the Go runtime and passed with the history); in the disciplined families handles that share a list through Assign are not mutated in place (DESIGN.md 4.3) and the direct value oracle applies, in the shared-write family they are (indexed writes and SetLength on either handle, inside the shared part, at its end and past it, clones and further Assigns in between) and the heap machine alone says what every handle must then hold; after every operation all values and the full Equals matrix are observed; non-trivial = a copy or list construction followed by a mutation of either side; distinct by input hash"})
 }
 
 // c20Slack measures what the heap machine takes as a parameter: the spare capacity append leaves when it has to
@@ -406,7 +406,7 @@ func hasNaN(v *variants.Variant) bool {
 
 func runC20(in sx.SX) (sx.SX, string) {
 	v := []*variants.Variant{variants.EmptyVariant(), variants.EmptyVariant(), variants.EmptyVariant(), variants.EmptyVariant()}
-	lists := [][]*variants.Variant{make([]*variants.Variant, 0, 4), make([]*variants.Variant, 0, 2)}
+	lists := [][]*variants.Variant{make([]*variants.Variant, 0, 4), nil} // the second caller list starts as the nil slice
 	// the value model of the property, kept as immutable encodings
 	null := sx.L(sx.I(0), sx.L())
 	sv := []sx.SX{null, null, null, null}
